@@ -354,6 +354,11 @@ inline int foreign_geometry_cache(NifFile& nif) {
 		if (dynamic_cast<NiGeometry*>(shape)) {
 			const void* p = shape->GetGeomData();
 			if (p && !own.count(p)) return k;
+			// ... and it must be the very block the shape's data reference designates
+			if (p && shape->DataRef() && !shape->DataRef()->IsEmpty()) {
+				const void* designated = nif.GetHeader().GetBlock<NiObject>(shape->DataRef()->index);
+				if (designated && designated != p) return k;
+			}
 		}
 		k++;
 	}
@@ -550,6 +555,54 @@ inline std::vector<Model> api_models() {
 		NifFile probe;
 		if (s1::load(probe, bytes) != 0) vf::fatal(std::string("api model does not reload: ") + v.name);
 		ms.push_back({v.name, bytes, {}});
+	}
+	// geometry kinds no sample file contains: NiTriStrips, BSLODTriShape, BSSegmentedTriShape (their data blocks
+	// are linked through the cached geometry pointer, like NiTriShape, but along separate code paths)
+	struct K { const char* name; NiVersion ver; };
+	std::vector<K> kinds = {{"api:OB+strips", NiVersion::getOB()}, {"api:FO3+strips+segmented", NiVersion::getFO3()}, {"api:SK+strips+lod", NiVersion::getSK()}};
+	for (auto& kd : kinds) {
+		NifFile nif;
+		nif.Create(kd.ver);
+		auto& hdr = nif.GetHeader();
+		auto root = nif.GetRootNode();
+		std::vector<Vector3> verts = {{0.0f, 0.0f, 0.0f}, {1.0f, 0.0f, 0.25f}, {0.0f, 1.0f, 0.5f}, {1.0f, 1.0f, 0.75f}, {0.5f, 0.5f, 2.0f}};
+		std::vector<Vector2> uvs = {{0.0f, 0.0f}, {1.0f, 0.0f}, {0.0f, 1.0f}, {1.0f, 1.0f}, {0.5f, 0.5f}};
+		std::vector<Triangle> tris = {{0, 1, 2}, {1, 3, 2}, {2, 3, 4}};
+		{
+			auto d = std::make_unique<NiTriStripsData>();
+			d->Create(hdr.GetVersion(), &verts, nullptr, &uvs, nullptr);
+			d->stripsInfo.hasPoints = true;
+			d->stripsInfo.points = {{0, 1, 2, 3}, {2, 3, 4}};
+			for (uint16_t len : {uint16_t(4), uint16_t(3)}) d->stripsInfo.stripLengths.push_back(len);
+			d->numTriangles = 3;
+			auto draw = d.get();
+			uint32_t did = hdr.AddBlock(std::move(d));
+			auto sh = std::make_unique<NiTriStrips>();
+			sh->name.get() = "ApiStrips";
+			sh->SetGeomData(draw);
+			sh->DataRef()->index = did;
+			root->childRefs.AddBlockRef(hdr.AddBlock(std::move(sh)));
+		}
+		std::string n = kd.name;
+		if (n.find("segmented") != std::string::npos || n.find("lod") != std::string::npos) {
+			auto d = std::make_unique<NiTriShapeData>();
+			d->Create(hdr.GetVersion(), &verts, &tris, &uvs, nullptr);
+			auto draw = d.get();
+			uint32_t did = hdr.AddBlock(std::move(d));
+			auto add_shape = [&](auto sh) {
+				sh->name.get() = "ApiSpecial";
+				sh->SetGeomData(draw);
+				sh->DataRef()->index = did;
+				root->childRefs.AddBlockRef(hdr.AddBlock(std::move(sh)));
+			};
+			if (n.find("segmented") != std::string::npos) add_shape(std::make_unique<BSSegmentedTriShape>());
+			else add_shape(std::make_unique<BSLODTriShape>());
+		}
+		std::string bytes = s1::save(nif, true);
+		if (bytes.empty()) vf::fatal(std::string("api model could not be saved: ") + kd.name);
+		NifFile probe;
+		if (s1::load(probe, bytes) != 0) vf::fatal(std::string("api model does not reload: ") + kd.name);
+		ms.push_back({kd.name, bytes, {}});
 	}
 	return ms;
 }
